@@ -38,7 +38,7 @@ out = ['### 9.1 Results (quick checks, every claimed property run against every 
 STATS = globals().get('STATS', {})
 summ = ['', 'Summary of the last full run (primary property of each change): ' + '; '.join(
     'ids _%s: %d refuted by the deductive verifier, %d by the bounded native fallback/standing check, %d undecided, %d missed' % (b, v['deductive'], v['bounded'], v['undecided'], v['missed'])
-    for b, v in sorted(STATS.items(), key=lambda kv: int(kv[0]))) + ' (suffix _1/_2 = batch 1, _3 = batch 2, _4 = batch 3, _5 = batch 4, _6 .. _10 = batches 5 .. 9, the five novelty rounds; the _10 rows were produced by the final machinery, which saw no change prompted by them except those named under Batch 9).' + (' %d rows marked "(previous run)" were not reached again by the last run and show the result of the run before it.' % globals().get('STALE', 0) if globals().get('STALE', 0) else '') + ' "Refuted by the deductive verifier" counts a change when at least one reported obligation of its primary property is a named clause.']
+    for b, v in sorted(STATS.items(), key=lambda kv: int(kv[0]))) + ' (suffix _1/_2 = batch 1, _3 = batch 2, _4 = batch 3, _5 = batch 4, _6 .. _11 = batches 5 .. 10, the six novelty rounds; the _10 and _11 rows were produced by the final machinery, which saw no change prompted by them except those named under Batch 9 and Batch 10).' + (' %d rows marked "(previous run)" were not reached again by the last run and show the result of the run before it.' % globals().get('STALE', 0) if globals().get('STALE', 0) else '') + ' "Refuted by the deductive verifier" counts a change when at least one reported obligation of its primary property is a named clause.']
 out += summ
 ben = []
 for d in sorted(glob.glob(os.path.join(V, 'benign', 'B*'))):
